@@ -264,12 +264,32 @@ Proof.
   - intros _. exact H1.
 Qed.
 
-Lemma contains4 a4 n x : length a4 = 4%nat -> n <= 32 ->
-  (let m4 := cidr_mask_bytes 4 n in
-   let x1 := match to4 x with Some y => y | None => x end in
-   if Nat.eqb (length x1) 4 then contains_loop (map2_band a4 m4) m4 x1 else false) = true <-> in_net4 a4 n x.
+(* IPNet.Contains after networkNumberAndMask *)
+Definition contains_with (nn m x : list byte) : bool :=
+  let x1 := match to4 x with Some y => y | None => x end in
+  if Nat.eqb (length x1) (length nn) then contains_loop nn m x1 else false.
+
+Lemma ipnet_contains_unfold nip mask x :
+  ipnet_contains nip mask x = contains_with (fst (net_num_mask nip mask)) (snd (net_num_mask nip mask)) x.
+Proof. unfold ipnet_contains, contains_with. now destruct (net_num_mask nip mask). Qed.
+
+Lemma nnm_4_4 a m : length a = 4%nat -> length m = 4%nat -> net_num_mask a m = (a, m).
+Proof. intros La Lm. unfold net_num_mask. rewrite (to4_len4 _ La), Lm. cbn [Nat.eqb]. now rewrite La. Qed.
+
+Lemma nnm_16_16 a m : length a = 16%nat -> to4 a = None -> length m = 16%nat -> net_num_mask a m = (a, m).
+Proof. intros La T Lm. unfold net_num_mask. rewrite T, La, Lm. cbn [Nat.eqb]. now rewrite La. Qed.
+
+Lemma nnm_mapped_16 a y m : to4 a = Some y -> length m = 16%nat -> net_num_mask a m = (y, skipn 12 m).
 Proof.
-  intros La Hn. cbv zeta. unfold in_net4. destruct (to4 x) as [y|] eqn:E.
+  intros T Lm. unfold net_num_mask. rewrite T, Lm. cbn [Nat.eqb]. now rewrite (to4_some_len _ _ T).
+Qed.
+
+Lemma contains4 a4 n x : length a4 = 4%nat -> n <= 32 ->
+  contains_with (map2_band a4 (cidr_mask_bytes 4 n)) (cidr_mask_bytes 4 n) x = true <-> in_net4 a4 n x.
+Proof.
+  intros La Hn. unfold contains_with, in_net4.
+  rewrite map2_band_length by (now rewrite cmb_length). rewrite La.
+  destruct (to4 x) as [y|] eqn:E.
   - rewrite (to4_some_len _ _ E). cbn [Nat.eqb].
     rewrite (contains_loop_prefix 4 a4 y n La (to4_some_len _ _ E)) by (cbn; lia).
     split; [intros H; exists y; auto | intros [y' [Hy H]]; now inversion Hy; subst].
@@ -296,11 +316,16 @@ Theorem cidr_v4 a n x : length a = 4%nat -> n <= 32 ->
   ipnet_contains (ip_mask (v4in6_prefix ++ a) (cidr_mask n 32)) (cidr_mask n 32) x = true <-> in_net4 a n x.
 Proof.
   intros La Hn. unfold cidr_mask. change (N.to_nat (32 / 8)) with 4%nat.
-  set (m4 := cidr_mask_bytes 4 n). assert (Lm : length m4 = 4%nat) by apply cmb_length.
-  rewrite (ip_mask_v4 a m4 La Lm). unfold ipnet_contains, net_num_mask.
-  assert (Ln : length (map2_band a m4) = 4%nat) by (rewrite map2_band_length; congruence).
-  rewrite (to4_len4 _ Ln), Lm, Ln. cbn [Nat.eqb]. now apply contains4.
+  pose proof (cmb_length 4 n) as Lm.
+  rewrite (ip_mask_v4 a _ La Lm), ipnet_contains_unfold, nnm_4_4; [| rewrite map2_band_length; congruence | exact Lm].
+  cbn [fst snd]. now apply contains4.
 Qed.
+
+Lemma firstn12_mapped (a4 : list byte) : firstn 12 (v4in6_prefix ++ a4) = v4in6_prefix.
+Proof. reflexivity. Qed.
+
+Lemma skipn12_mapped (a4 : list byte) : skipn 12 (v4in6_prefix ++ a4) = a4.
+Proof. reflexivity. Qed.
 
 (* IPv6 network, written as an IPv6 text /n - including a v4-mapped text, which with n >= 96 is the IPv4
    network a'/(n-96) of its last four bytes, and with n < 96 an IPv6 network no 4-byte or v4-mapped address
@@ -310,60 +335,51 @@ Theorem cidr_v6 a n x : length a = 16%nat -> n <= 128 ->
   if (96 <=? n) && is_mapped a then in_net4 (skipn 12 a) (n - 96) x else in_net6 a n x.
 Proof.
   intros La Hn. unfold cidr_mask. change (N.to_nat (128 / 8)) with 16%nat.
-  set (m := cidr_mask_bytes 16 n). assert (Lm : length m = 16%nat) by apply cmb_length.
-  rewrite (ip_mask_v6 a m La Lm). set (nip := map2_band a m).
-  assert (Ln : length nip = 16%nat) by (unfold nip; rewrite map2_band_length; congruence).
+  pose proof (cmb_length 16 n) as Lm.
+  rewrite (ip_mask_v6 a _ La Lm), ipnet_contains_unfold.
+  assert (Ln : length (map2_band a (cidr_mask_bytes 16 n)) = 16%nat) by (rewrite map2_band_length; congruence).
+  assert (H11 : firstn 12 (map2_band a (cidr_mask_bytes 16 n)) = v4in6_prefix -> 96 <= n).
+  { intros B.
+    assert (H : nth 11 (map2_band a (cidr_mask_bytes 16 n)) x00 = xff).
+    { rewrite <- (firstn_skipn 12 (map2_band a (cidr_mask_bytes 16 n))), B, app_nth1 by (cbn; lia). reflexivity. }
+    rewrite map2_band_nth in H by lia. apply band_ff_mask in H.
+    apply cmb_nth_ff in H; [|lia]. cbn in H. lia. }
+  assert (Hge : 96 <= n -> cidr_mask_bytes 16 n = repeat xff 12 ++ cidr_mask_bytes 4 (n - 96)).
+  { intros G. change 16%nat with (12 + 4)%nat. rewrite cmb_split by (cbn; lia). reflexivity. }
   destruct ((96 <=? n) && is_mapped a) eqn:C.
   - (* a v4-mapped text with a prefix that covers the mapping *)
     apply andb_prop in C as [C1 C2]. apply N.leb_le in C1. unfold is_mapped in C2. apply beqb_true in C2.
-    assert (Em : m = repeat xff 12 ++ cidr_mask_bytes 4 (n - 96)).
-    { unfold m. change 16%nat with (12 + 4)%nat. rewrite cmb_split by (cbn; lia). f_equal. }
     assert (Ea : a = v4in6_prefix ++ skipn 12 a) by (rewrite <- C2 at 1; symmetry; apply firstn_skipn).
-    set (a4 := skipn 12 a) in *. set (m4 := cidr_mask_bytes 4 (n - 96)) in *.
+    set (a4 := skipn 12 a) in *.
     assert (La4 : length a4 = 4%nat) by (unfold a4; now apply skipn12_length).
-    assert (Lm4 : length m4 = 4%nat) by apply cmb_length.
-    assert (En : nip = v4in6_prefix ++ map2_band a4 m4).
-    { unfold nip. rewrite Em, Ea, map2_band_app by reflexivity. f_equal. apply (map2_band_ff v4in6_prefix). }
-    unfold ipnet_contains, net_num_mask.
-    assert (L4 : length (map2_band a4 m4) = 4%nat) by (rewrite map2_band_length; congruence).
-    assert (T : to4 nip = Some (map2_band a4 m4)).
-    { unfold to4. rewrite Ln. cbn [Nat.eqb andb]. rewrite En, firstn_app. cbn [length v4in6_prefix Nat.sub firstn].
-      rewrite app_nil_r. change (firstn 12 v4in6_prefix) with v4in6_prefix. rewrite beqb_refl.
-      rewrite skipn_app. cbn [length v4in6_prefix Nat.sub skipn app]. reflexivity. }
-    rewrite T, Lm, L4. cbn [Nat.eqb].
-    replace (skipn 12 m) with m4 by (rewrite Em, skipn_app; cbn [length repeat Nat.sub skipn app]; reflexivity).
-    rewrite L4. apply contains4; [exact La4 | lia].
+    pose proof (cmb_length 4 (n - 96)) as Lm4.
+    assert (En : map2_band a (cidr_mask_bytes 16 n) = v4in6_prefix ++ map2_band a4 (cidr_mask_bytes 4 (n - 96))).
+    { rewrite (Hge C1), Ea, map2_band_app by reflexivity. reflexivity. }
+    assert (L4 : length (map2_band a4 (cidr_mask_bytes 4 (n - 96))) = 4%nat) by (rewrite map2_band_length; congruence).
+    assert (T : to4 (map2_band a (cidr_mask_bytes 16 n)) = Some (map2_band a4 (cidr_mask_bytes 4 (n - 96)))).
+    { unfold to4. rewrite Ln. cbn [Nat.eqb andb]. now rewrite En, firstn12_mapped, beqb_refl, skipn12_mapped. }
+    rewrite (nnm_mapped_16 _ _ _ T Lm). cbn [fst snd].
+    replace (skipn 12 (cidr_mask_bytes 16 n)) with (cidr_mask_bytes 4 (n - 96)) by (rewrite (Hge C1); reflexivity).
+    apply contains4; [exact La4 | lia].
   - (* a genuine IPv6 network *)
-    assert (T : to4 nip = None).
+    assert (T : to4 (map2_band a (cidr_mask_bytes 16 n)) = None).
     { unfold to4. rewrite Ln. cbn [Nat.eqb andb].
-      destruct (beqb (firstn 12 nip) v4in6_prefix) eqn:B; [|reflexivity]. exfalso.
-      apply beqb_true in B. apply andb_false_iff in C as [C|C].
-      - apply N.leb_gt in C.
-        assert (H11 : nth 11 nip x00 = xff).
-        { rewrite <- (firstn_skipn 12 nip), B, app_nth1 by (cbn; lia). reflexivity. }
-        unfold nip in H11. rewrite map2_band_nth in H11 by lia. apply band_ff_mask in H11.
-        apply cmb_nth_ff in H11; [|lia]. cbn in H11. lia.
-      - unfold is_mapped in C. assert (96 <= n \/ n < 96) as [G|G] by lia.
-        + assert (Em : m = repeat xff 12 ++ cidr_mask_bytes 4 (n - 96)).
-          { unfold m. change 16%nat with (12 + 4)%nat. rewrite cmb_split by (cbn; lia). f_equal. }
-          assert (F : firstn 12 nip = firstn 12 a).
-          { unfold nip. rewrite <- (firstn_skipn 12 a) at 1. rewrite Em, map2_band_app.
-            - rewrite firstn_app. rewrite map2_band_length.
-              + rewrite firstn_length, La. cbn [Nat.min Nat.sub firstn]. rewrite app_nil_r.
-                replace 12%nat with (length (firstn 12 a)) at 3 by (rewrite firstn_length, La; reflexivity).
-                rewrite map2_band_ff. apply firstn_all2. rewrite firstn_length. lia.
-              + rewrite firstn_length, La, repeat_length. reflexivity.
-            - rewrite firstn_length, La, repeat_length. reflexivity. }
-          rewrite F in B. rewrite B, beqb_refl in C. discriminate.
-        + assert (H11 : nth 11 nip x00 = xff).
-          { rewrite <- (firstn_skipn 12 nip), B, app_nth1 by (cbn; lia). reflexivity. }
-          unfold nip in H11. rewrite map2_band_nth in H11 by lia. apply band_ff_mask in H11.
-          apply cmb_nth_ff in H11; [|lia]. cbn in H11. lia. }
-    unfold ipnet_contains, net_num_mask. rewrite T, Ln, Lm. cbn [Nat.eqb]. rewrite Ln. cbn [Nat.eqb].
-    unfold in_net6. destruct (to4 x) as [y|] eqn:E.
+      destruct (beqb (firstn 12 (map2_band a (cidr_mask_bytes 16 n))) v4in6_prefix) eqn:B; [|reflexivity]. exfalso.
+      apply beqb_true in B. pose proof (H11 B) as G. apply andb_false_iff in C as [C|C]; [apply N.leb_gt in C; lia|].
+      unfold is_mapped in C.
+      assert (F : firstn 12 (map2_band a (cidr_mask_bytes 16 n)) = firstn 12 a).
+      { rewrite (Hge G). rewrite <- (firstn_skipn 12 a) at 1.
+        assert (L12 : length (firstn 12 a) = 12%nat) by (rewrite firstn_length, La; reflexivity).
+        rewrite map2_band_app by (now rewrite L12).
+        replace (repeat xff 12) with (repeat xff (length (firstn 12 a))) by (now rewrite L12).
+        rewrite map2_band_ff.
+        rewrite firstn_app, L12, Nat.sub_diag, firstn_O, app_nil_r. apply firstn_all2. lia. }
+      rewrite F in B. rewrite B, beqb_refl in C. discriminate. }
+    rewrite (nnm_16_16 _ _ Ln T Lm). cbn [fst snd]. unfold contains_with, in_net6. rewrite Ln.
+    destruct (to4 x) as [y|] eqn:E.
     + rewrite (to4_some_len _ _ E). cbn [Nat.eqb]. split; [discriminate | intros (_ & H & _); discriminate].
     + destruct (Nat.eqb_spec (length x) 16) as [Lx|Lx].
-      * unfold nip, m. rewrite (contains_loop_prefix 16 a x n La Lx) by (cbn; lia). tauto.
+      * rewrite (contains_loop_prefix 16 a x n La Lx) by (cbn; lia). tauto.
       * split; [discriminate | intros (H & _); contradiction].
 Qed.
 
@@ -392,7 +408,7 @@ Theorem cidr_v4_full a x : length a = 4%nat -> (in_net4 a 32 x <-> to4 x = Some 
 Proof.
   intros La. unfold in_net4. split.
   - intros [y [Hy H]]. pose proof (to4_some_len _ _ Hy) as Ly.
-    change 32 with (8 * N.of_nat 4) in H. rewrite <- Ly in H. apply prefix_eq_full in H; congruence.
+    change 32 with (8 * N.of_nat 4) in H. rewrite <- Ly in H. apply prefix_eq_full in H; [now subst | now rewrite Ly, La].
   - intros H. exists a. split; [exact H | reflexivity].
 Qed.
 
@@ -400,7 +416,7 @@ Theorem cidr_v6_full a x : length a = 16%nat -> (in_net6 a 128 x <-> x = a /\ to
 Proof.
   intros La. unfold in_net6. split.
   - intros (Lx & T & H). change 128 with (8 * N.of_nat 16) in H. rewrite <- Lx in H.
-    apply prefix_eq_full in H; [|congruence]. subst. auto.
+    apply prefix_eq_full in H; [|now rewrite Lx, La]. subst. auto.
   - intros [-> T]. repeat split; auto.
 Qed.
 
@@ -471,16 +487,17 @@ Qed.
 Lemma parse_ipv6_len s r : parse_ipv6 s = Some r -> length r = 16%nat.
 Proof.
   unfold parse_ipv6.
-  set (lead := match s with c1 :: c2 :: _ => Byte.eqb c1 ":"%byte && Byte.eqb c2 ":"%byte | _ => false end).
+  match goal with |- context [if ?b then skipn 2 s else s] => set (lead := b) end.
   destruct (lead && Nat.eqb (length (if lead then skipn 2 s else s)) 0).
   { intros H. injection H as <-. apply repeat_length. }
-  destruct (v6_loop 10 (if lead then skipn 2 s else s) 0 [] (if lead then Some 0%nat else None))
-    as [[[[rest i] ipb] ell]|] eqn:E; [|discriminate].
+  match goal with |- context [v6_loop ?f ?b ?c ?d ?e] =>
+    destruct (v6_loop f b c d e) as [[[[rest i] ipb] ell]|] eqn:E; [|discriminate] end.
   apply v6_loop_len in E as [L I]; [|reflexivity|reflexivity|lia].
   destruct (negb (Nat.eqb (length rest) 0)); [discriminate|].
   destruct (Nat.ltb i 16) eqn:E16.
   - apply Nat.ltb_lt in E16. destruct ell as [e|]; [|discriminate]. intros H. injection H as <-.
-    rewrite !app_length, firstn_length, skipn_length. unfold zeros. rewrite repeat_length. lia.
+    rewrite !app_length, firstn_length, skipn_length. unfold zeros. rewrite repeat_length.
+    match goal with |- (_ + (?m + _))%nat = _ => change m with (16 - i)%nat end. lia.
   - apply Nat.ltb_ge in E16. destruct ell; [discriminate|]. intros H. injection H as <-. lia.
 Qed.
 
@@ -529,6 +546,44 @@ Theorem parse_cidr_too_long s ta tn r n :
 Proof.
   intros H1 H2 H3 H4. unfold parse_cidr. rewrite H1, H2, H3. apply N.ltb_lt in H4. now rewrite H4.
 Qed.
+
+(* a rule whose address compiles to a CIDR matcher is one whose normalised address text ParseCIDR accepts *)
+Lemma compile_host_matcher_cidr addr nip mk :
+  compile_host_matcher addr = Ok (MCIDR nip mk) -> parse_cidr (norm_name addr) = Some (nip, mk).
+Proof.
+  unfold compile_host_matcher.
+  destruct (beqb (norm_name addr) s_star || beqb (norm_name addr) s_all); [discriminate|].
+  destruct (has_prefix s_geoip (norm_name addr)); [discriminate|].
+  destruct (has_prefix s_geosite (norm_name addr)); [discriminate|].
+  destruct (has_prefix s_suffix (norm_name addr)).
+  { destruct (Nat.eqb (length (skipn 7 (norm_name addr))) 0); discriminate. }
+  destruct (has_byte "/"%byte (norm_name addr)).
+  - destruct (parse_cidr (norm_name addr)) as [[n m]|]; [|discriminate]. intros H. now injection H as <- <-.
+  - destruct (parse_ip (norm_name addr)); [discriminate|]. destruct (has_byte "*"%byte (norm_name addr)); discriminate.
+Qed.
+
+Lemma cidr_edges a x :
+  (in_net4 a 0 x <-> exists y, to4 x = Some y) /\
+  (in_net6 a 0 x <-> length x = 16%nat /\ to4 x = None) /\
+  (length a = 4%nat -> (in_net4 a 32 x <-> to4 x = Some a)) /\
+  (length a = 16%nat -> (in_net6 a 128 x <-> x = a /\ to4 a = None)) /\
+  (forall n a', prefix_eq n a a' -> (in_net4 a n x <-> in_net4 a' n x) /\ (in_net6 a n x <-> in_net6 a' n x)).
+Proof.
+  split; [apply cidr_v4_zero|]. split; [apply cidr_v6_zero|]. split; [apply cidr_v4_full|].
+  split; [apply cidr_v6_full|]. intros n a'. apply cidr_noncanonical.
+Qed.
+
+Lemma cidr_rule addr nip mk :
+  compile_host_matcher addr = Ok (MCIDR nip mk) ->
+  exists ta tn r n,
+    cut "/"%byte (norm_name addr) = Some (ta, tn) /\ parse_addr ta = Some r /\ parse_dec tn = Some n /\
+    ((fst r = true /\ n <= 32 /\ length (snd r) = 4%nat /\
+      forall x, ipnet_contains nip mk x = true <-> in_net4 (snd r) n x)
+     \/
+     (fst r = false /\ n <= 128 /\ length (snd r) = 16%nat /\
+      forall x, ipnet_contains nip mk x = true <->
+                if (96 <=? n) && is_mapped (snd r) then in_net4 (skipn 12 (snd r)) (n - 96) x else in_net6 (snd r) n x)).
+Proof. intros H. apply parse_cidr_meaning. now apply compile_host_matcher_cidr. Qed.
 
 (* ---------- examples ---------- *)
 
